@@ -114,8 +114,16 @@ func (r *recConn) Write(p []byte) (int, error) {
 	r.mu.Unlock()
 	return n, err
 }
-func (r *recConn) read() []byte  { r.mu.Lock(); defer r.mu.Unlock(); return append([]byte(nil), r.rd.Bytes()...) }
-func (r *recConn) wrote() []byte { r.mu.Lock(); defer r.mu.Unlock(); return append([]byte(nil), r.wr.Bytes()...) }
+func (r *recConn) read() []byte {
+	r.mu.Lock()
+	defer r.mu.Unlock()
+	return append([]byte(nil), r.rd.Bytes()...)
+}
+func (r *recConn) wrote() []byte {
+	r.mu.Lock()
+	defer r.mu.Unlock()
+	return append([]byte(nil), r.wr.Bytes()...)
+}
 
 func ctxT() (context.Context, context.CancelFunc) {
 	return context.WithTimeout(context.Background(), 3*time.Second)
@@ -513,7 +521,9 @@ func mutateID(id string) string {
 func runHistory(h history) runOut {
 	w := newWorld(h)
 	out := runOut{counts: map[string]int{}}
-	fail := func(key, f string, a ...interface{}) { out.fails = append(out.fails, failure{key, fmt.Sprintf(f, a...)}) }
+	fail := func(key, f string, a ...interface{}) {
+		out.fails = append(out.fails, failure{key, fmt.Sprintf(f, a...)})
+	}
 	sessOf := func(n int) *sess {
 		if n >= 1 && n <= len(w.sess) {
 			return w.sess[n-1]
